@@ -110,12 +110,44 @@ func c17NodeStart(c *Ctx) {
 			}
 		}
 	}
+	// the node being examined: the parameter, or the loop variable that starts as the parameter and descends to a
+	// first child (`for { switch node.NodeType { case K: node = node.K().LHS … } }`)
+	isNodeVar := func(v ssa.Value) bool {
+		if v == ssa.Value(fn.Params[0]) {
+			return true
+		}
+		if ph, ok := v.(*ssa.Phi); ok {
+			for _, e := range ph.Edges {
+				if e == ssa.Value(fn.Params[0]) {
+					return true
+				}
+			}
+		}
+		return false
+	}
+	// the iterative form: an arm that sets the loop variable to a child and goes round again stands for "the start
+	// of that child"
+	for _, b := range fn.Blocks {
+		for _, in := range b.Instrs {
+			ph, ok := in.(*ssa.Phi)
+			if !ok || !isNodeVar(ph) {
+				continue
+			}
+			for i, e := range ph.Edges {
+				if e == ssa.Value(fn.Params[0]) || e == ssa.Value(ph) {
+					continue
+				}
+				pb := b.Preds[i]
+				record(e, pb.Instrs[len(pb.Instrs)-1], pb)
+			}
+		}
+	}
 	// the dispatcher may route groups of kinds to same-package helpers that hold the arms
 	fns := []*ssa.Function{fn}
 	isHelper := map[*ssa.Function]bool{}
 	allInstrs(fn, func(in ssa.Instruction) {
 		if call, ok := in.(*ssa.Call); ok {
-			if h := call.Call.StaticCallee(); h != nil && h.Pkg == fn.Pkg && len(h.Blocks) > 0 && h.Signature.Recv() == nil && len(call.Call.Args) == 1 && call.Call.Args[0] == ssa.Value(fn.Params[0]) {
+			if h := call.Call.StaticCallee(); h != nil && h.Pkg == fn.Pkg && len(h.Blocks) > 0 && h.Signature.Recv() == nil && len(call.Call.Args) == 1 && isNodeVar(call.Call.Args[0]) {
 				if !isHelper[h] {
 					isHelper[h] = true
 					fns = append(fns, h)
